@@ -666,6 +666,80 @@ func checkOutstandingCounters(c *core.Ctx, pcu *PkgInfo, prov *core.Prov, rule s
 			}
 		}
 	})
+	// issue and return sites that share an in-flight list move the same set of counters
+	{
+		counters := []string{"OutstandingVectorMemAccess", "OutstandingScalarMemAccess"}
+		type moves struct{ inc, dec map[string]bool }
+		var collect func(fn *ssa.Function, depth int, m *moves, lists map[string]bool, seen map[*ssa.Function]bool)
+		collect = func(fn *ssa.Function, depth int, m *moves, lists map[string]bool, seen map[*ssa.Function]bool) {
+			if fn == nil || seen[fn] || depth > 2 {
+				return
+			}
+			seen[fn] = true
+			for _, b := range fn.Blocks {
+				for _, in := range b.Instrs {
+					for _, f := range counters {
+						if s, ok := storeToField(in, "Wavefront."+f); ok {
+							pv := prov.Of(s.Val)
+							if strings.HasSuffix(pv, "."+f+"+1)") {
+								m.inc[f] = true
+							}
+							if strings.HasSuffix(pv, "."+f+"-1)") {
+								m.dec[f] = true
+							}
+						}
+					}
+					if f := writtenField(in); f != nil && strings.HasPrefix(f.Name(), "InFlight") && depth == 0 {
+						lists[f.Name()] = true
+					}
+					if cal := core.CallOf(in); cal != nil && cal.StaticCallee() != nil && cal.StaticCallee().Pkg == fn.Pkg {
+						collect(cal.StaticCallee(), depth+1, m, map[string]bool{}, seen)
+					}
+				}
+			}
+		}
+		type site struct {
+			fn    *ssa.Function
+			m     moves
+			lists map[string]bool
+		}
+		var sites []site
+		for _, fn := range pcu.Funcs {
+			m := moves{map[string]bool{}, map[string]bool{}}
+			lists := map[string]bool{}
+			collect(fn, 0, &m, lists, map[*ssa.Function]bool{})
+			if len(lists) > 0 && (len(m.inc) > 0 || len(m.dec) > 0) {
+				sites = append(sites, site{fn, m, lists})
+			}
+		}
+		setStr := func(m map[string]bool) string { return strings.Join(sortedKeys(m), "+") }
+		for _, a := range sites {
+			if len(a.m.inc) == 0 {
+				continue
+			}
+			for _, b := range sites {
+				if len(b.m.dec) == 0 {
+					continue
+				}
+				shared := false
+				for l := range a.lists {
+					if b.lists[l] {
+						shared = true
+					}
+				}
+				if !shared {
+					continue
+				}
+				st3.Instances++
+				ok := setStr(a.m.inc) == setStr(b.m.dec)
+				st3.Ob(ok)
+				st3.Sample("%s issues (+%s) what %s retires (-%s): %v", core.FuncName(a.fn), setStr(a.m.inc), core.FuncName(b.fn), setStr(b.m.dec), ok)
+				if !ok {
+					c.ReportAt(rule, a.fn, a.fn.Pos(), "counter-pair:"+core.FuncName(a.fn)+"/"+core.FuncName(b.fn), fmt.Sprintf("%s queues memory accesses and increments {%s}; %s retires entries of the same in-flight list and decrements {%s}: a counter that is decremented without having been incremented goes negative and s_waitcnt / s_endpgm stop waiting for accesses that are still in flight (one that is only incremented blocks the wavefront forever)", core.FuncName(a.fn), setStr(a.m.inc), core.FuncName(b.fn), setStr(b.m.dec)))
+				}
+			}
+		}
+	}
 	// exactly the last generated request is not coalescable
 	for name := range incOwners {
 		fn := c.SSAFunc(cuPkg, name)
